@@ -1064,39 +1064,39 @@ fn channels() -> Vec<Channel> {
         ch!("csc.is_triu", e, run_is_triu, Some(oracle_is_triu), "CscMatrix::is_triu", "Csc.isTriu"),
         ch!("csc.select_rows", e, run_select_rows, Some(oracle_select_rows), "CscMatrix::select_rows", "Csc.selectRows / C16.selectRows_spec"),
         ch!("csc.transpose", e, run_transpose, Some(oracle_transpose), "From<Adjoint<CscMatrix>>", "Csc.transpose / C16.transpose_dense, C16.transpose_canonical"),
-        ch!("csc.from_rows", e, run_from_rows, Some(oracle_from_rows), "CscMatrix::from(rows)", "Csc.fromRows"),
+        ch!("csc.from_rows", e, run_from_rows, Some(oracle_from_rows), "CscMatrix::from(rows)", "Csc.fromRows / C16.fromRows_spec"),
         ch!("csc.new_from_triplets", e, run_new_from_triplets, Some(oracle_new_from_triplets), "CscMatrix::new_from_triplets", "Csc.newFromTriplets / C16.newFromTriplets_spec"),
         ch!("csc.spalloc", e, run_spalloc, Some(oracle_spalloc), "CscMatrix::spalloc", "Csc.spalloc"),
-        ch!("csc.zeros", e, run_zeros, Some(oracle_zeros), "CscMatrix::zeros", "Csc.zeros"),
-        ch!("csc.identity", e, run_identity, Some(oracle_identity), "CscMatrix::identity", "Csc.identity"),
-        ch!("csc.dropzeros", e, run_dropzeros, Some(oracle_dropzeros), "CscMatrix::dropzeros", "Csc.dropzeros"),
+        ch!("csc.zeros", e, run_zeros, Some(oracle_zeros), "CscMatrix::zeros", "Csc.zeros / C16.zeros_spec"),
+        ch!("csc.identity", e, run_identity, Some(oracle_identity), "CscMatrix::identity", "Csc.identity / C16.identity_spec"),
+        ch!("csc.dropzeros", e, run_dropzeros, Some(oracle_dropzeros), "CscMatrix::dropzeros", "Csc.dropzeros / C16.dropzeros_spec"),
         ch!("csc.findnz", e, run_findnz, Some(oracle_findnz), "CscMatrix::findnz", "Csc.findnz"),
-        ch!("csc.canonicalize", e, run_canonicalize, Some(oracle_canonicalize), "CscMatrix::canonicalize (sort_indices, deduplicate)", "Csc.canonicalize / C16.canonicalize_spec"),
+        ch!("csc.canonicalize", e, run_canonicalize, Some(oracle_canonicalize), "CscMatrix::canonicalize (sort_indices, deduplicate)", "Csc.canonicalize / C16.canonicalize_spec, canonicalize_of_canonical, canonicalize_idem"),
         ch!("csc.is_equal_sparsity", e, run_is_equal_sparsity, Some(oracle_is_equal_sparsity), "CscMatrix::is_equal_sparsity", "Csc.isEqualSparsity"),
         ch!("csc.check_equal_sparsity", e, run_check_equal_sparsity, Some(oracle_check_equal_sparsity), "CscMatrix::check_equal_sparsity", "Csc.checkEqualSparsity"),
         ch!("csc.get_entry", e, run_get_entry, Some(oracle_get_entry), "CscMatrix::get_entry", "Csc.getEntry / C16.getEntry_eq"),
         ch!("csc.set_entry", e, run_set_entry, Some(oracle_set_entry), "CscMatrix::set_entry", "Csc.setEntry / C16.setEntry_getEntry"),
-        ch!("csc.index_to_coord", e, run_index_to_coord, Some(oracle_index_to_coord), "CscMatrix::index_to_coord", "Csc.indexToCoord"),
+        ch!("csc.index_to_coord", e, run_index_to_coord, Some(oracle_index_to_coord), "CscMatrix::index_to_coord", "Csc.indexToCoord / C16.indexToCoord_spec"),
         ch!("csc.gemv_n", e, run_gemv_n, Some(oracle_gemv_n), "_csc_axpby_N (MatrixVectorMultiply::gemv)", "Csc.gemvN / C16.gemvN_spec"),
         ch!("csc.gemv_t", e, run_gemv_t, Some(oracle_gemv_t), "_csc_axpby_T (Adjoint gemv)", "Csc.gemvT / C16.gemvT_spec"),
-        ch!("csc.symv", e, run_symv, Some(oracle_symv), "_csc_symv_unsafe (SymMatrixVectorMultiply::symv)", "Csc.symv"),
-        ch!("csc.quad_form", e, run_quad_form, Some(oracle_quad_form), "_csc_quad_form", "Csc.quadForm"),
-        ch!("csc.col_sums", e, run_col_sums, Some(oracle_col_sums), "MatrixMath::col_sums", "Csc.colSums"),
-        ch!("csc.row_sums", e, run_row_sums, Some(oracle_row_sums), "MatrixMath::row_sums", "Csc.rowSums"),
-        ch!("csc.col_norms", e, run_col_norms, Some(oracle_col_norms), "MatrixMath::col_norms", "Csc.colNorms"),
-        ch!("csc.col_norms_no_reset", e, run_col_norms_no_reset, Some(oracle_col_norms_nr), "MatrixMath::col_norms_no_reset", "Csc.colNormsNoReset"),
+        ch!("csc.symv", e, run_symv, Some(oracle_symv), "_csc_symv_unsafe (SymMatrixVectorMultiply::symv)", "Csc.symv / C16.symv_spec"),
+        ch!("csc.quad_form", e, run_quad_form, Some(oracle_quad_form), "_csc_quad_form", "Csc.quadForm / C16.quadForm_spec"),
+        ch!("csc.col_sums", e, run_col_sums, Some(oracle_col_sums), "MatrixMath::col_sums", "Csc.colSums / C16.colSums_spec"),
+        ch!("csc.row_sums", e, run_row_sums, Some(oracle_row_sums), "MatrixMath::row_sums", "Csc.rowSums / C16.rowSums_spec"),
+        ch!("csc.col_norms", e, run_col_norms, Some(oracle_col_norms), "MatrixMath::col_norms", "Csc.colNorms / C16.colNorms_spec"),
+        ch!("csc.col_norms_no_reset", e, run_col_norms_no_reset, Some(oracle_col_norms_nr), "MatrixMath::col_norms_no_reset", "Csc.colNormsNoReset / C16.colNormsNoReset_spec"),
         ch!("csc.col_norms_sym", e, run_col_norms_sym, Some(oracle_sym_norms), "MatrixMath::col_norms_sym", "Csc.colNormsSym"),
-        ch!("csc.col_norms_sym_no_reset", e, run_col_norms_sym_no_reset, Some(oracle_sym_norms_nr), "MatrixMath::col_norms_sym_no_reset", "Csc.colNormsSymNoReset"),
-        ch!("csc.row_norms", e, run_row_norms, Some(oracle_row_norms), "MatrixMath::row_norms", "Csc.rowNorms"),
-        ch!("csc.row_norms_no_reset", e, run_row_norms_no_reset, Some(oracle_row_norms_nr), "MatrixMath::row_norms_no_reset", "Csc.rowNormsNoReset"),
-        ch!("csc.scale", e, run_scale, Some(oracle_scale), "MatrixMathMut::scale", "Csc.scale"),
-        ch!("csc.negate", e, run_negate, Some(oracle_negate), "MatrixMathMut::negate", "Csc.negate"),
-        ch!("csc.lscale", e, run_lscale, Some(oracle_lscale), "MatrixMathMut::lscale", "Csc.lscale"),
-        ch!("csc.rscale", e, run_rscale, Some(oracle_rscale), "MatrixMathMut::rscale", "Csc.rscale"),
-        ch!("csc.lrscale", e, run_lrscale, Some(oracle_lrscale), "MatrixMathMut::lrscale", "Csc.lrscale"),
-        ch!("csc.hcat", e, run_hcat, Some(oracle_hcat), "BlockConcatenate::hcat", "Csc.hcat"),
-        ch!("csc.vcat", e, run_vcat, Some(oracle_vcat), "BlockConcatenate::vcat", "Csc.vcat"),
-        ch!("csc.blockdiag", e, run_blockdiag, Some(oracle_blockdiag), "BlockConcatenate::blockdiag", "Csc.blockdiag"),
+        ch!("csc.col_norms_sym_no_reset", e, run_col_norms_sym_no_reset, Some(oracle_sym_norms_nr), "MatrixMath::col_norms_sym_no_reset", "Csc.colNormsSymNoReset / C16.colNormsSymNoReset_spec"),
+        ch!("csc.row_norms", e, run_row_norms, Some(oracle_row_norms), "MatrixMath::row_norms", "Csc.rowNorms / C16.rowNorms_spec"),
+        ch!("csc.row_norms_no_reset", e, run_row_norms_no_reset, Some(oracle_row_norms_nr), "MatrixMath::row_norms_no_reset", "Csc.rowNormsNoReset / C16.rowNormsNoReset_spec"),
+        ch!("csc.scale", e, run_scale, Some(oracle_scale), "MatrixMathMut::scale", "Csc.scale / C16.scale_spec"),
+        ch!("csc.negate", e, run_negate, Some(oracle_negate), "MatrixMathMut::negate", "Csc.negate / C16.negate_spec"),
+        ch!("csc.lscale", e, run_lscale, Some(oracle_lscale), "MatrixMathMut::lscale", "Csc.lscale / C16.lscale_spec"),
+        ch!("csc.rscale", e, run_rscale, Some(oracle_rscale), "MatrixMathMut::rscale", "Csc.rscale / C16.rscale_spec"),
+        ch!("csc.lrscale", e, run_lrscale, Some(oracle_lrscale), "MatrixMathMut::lrscale", "Csc.lrscale / C16.lrscale_spec"),
+        ch!("csc.hcat", e, run_hcat, Some(oracle_hcat), "BlockConcatenate::hcat", "Csc.hcat / C16.hcat_spec, hcat_error_iff"),
+        ch!("csc.vcat", e, run_vcat, Some(oracle_vcat), "BlockConcatenate::vcat", "Csc.vcat / C16.vcat_spec, vcat_error_iff"),
+        ch!("csc.blockdiag", e, run_blockdiag, Some(oracle_blockdiag), "BlockConcatenate::blockdiag", "Csc.blockdiag / C16.blockdiag_spec, blockdiag_error_iff"),
         ch!("csc.hvcat", e, run_hvcat, Some(oracle_hvcat), "BlockConcatenate::hvcat + hvcat_dim_check", "Csc.hvcat / Csc.hvcatDimCheck"),
         ch!("vec.dot", e, run_v_dot, Some(oracle_v_reduce), "VectorMath::dot", "Vec.dot"),
         ch!("vec.sumsq", e, run_v_sumsq, Some(oracle_v_reduce), "VectorMath::sumsq", "Vec.sumsq"),
@@ -1503,6 +1503,17 @@ fn vec_cases(s: &mut Session) {
 }
 
 fn generate(s: &mut Session) {
+    if !s.is_searching() {
+        s.note("operations WITH a machine-checked theorem (dense meaning and/or canonical output, ClarabelProofs/Props/C16.lean): \
+check_format, from(rows), new_from_triplets, canonicalize (+ identity on canonical input, idempotence), identity, zeros, \
+dropzeros, select_rows, to_triu, transpose, get_entry, set_entry, index_to_coord, gemv N, gemv T, symv, quad_form, col_sums, \
+row_sums, col_norms, col_norms_no_reset, row_norms, row_norms_no_reset, col_norms_sym_no_reset, scale, negate, lscale, \
+rscale, lrscale, hcat, vcat, blockdiag (each with its exact error condition)".to_string());
+        s.note("operations WITHOUT a theorem (model + bit-exact correspondence + dense oracle only): hvcat on a general block grid \
+(hcat/vcat are the proved 1x2 / 2x1 cases; hvcat_dim_check is modelled), findnz, spalloc, is_triu (only as a conjunct of \
+toTriu_spec), is_equal_sparsity / check_equal_sparsity, col_norms_sym (= col_norms_sym_no_reset on zeros by definition), \
+and the 23 vector kernels of vecmath.rs (correspondence with ClarabelModel/Vec.lean only)".to_string());
+    }
     let shapes: &[(usize, usize)] = if s.thorough() {
         &[(1, 1), (2, 2), (3, 3), (2, 3), (3, 2), (4, 3), (1, 4)]
     } else {
